@@ -139,6 +139,15 @@ func (st *StateDB) VerifC08AcctDirty() []common.Address {
 	return l
 }
 
+// VerifC08JournalDirties returns the addresses dirtied by the validator journal.
+func (st *StateDB) VerifC08JournalDirties() map[common.Address]bool {
+	m := map[common.Address]bool{}
+	for a := range st.validatorJournal.dirties {
+		m[a] = true
+	}
+	return m
+}
+
 // VerifC08RevisionIds returns the ids of the valid revisions, oldest first.
 func (st *StateDB) VerifC08RevisionIds() []int {
 	out := make([]int, 0, len(st.validRevisions))
